@@ -49,6 +49,11 @@ def make_state(scn, w, case, si=0):
         o = call(lambda: h + h2)
         if o.ok:
             h = o.value
+    for f in case.get("scales") or []:
+        # scaled, possibly until the weights underflow to 0.0 (what stays - extrema, keys, means - is still a state)
+        o = call(lambda f=f, h=h: h * f)
+        if o.ok:
+            h = o.value
     return h
 
 
@@ -78,6 +83,7 @@ class C15(Scenario):
         f = rng.fork("faults")
         cuts = sorted(set(f.random() for _ in range(6)))
         return {"spec": sp, "records": [specmod.enc_record(r) for r in recs], "fills": fills, "fills2": fills2,
+                "scales": f.pick([None, None, None, None, [2.0], [0.5, 3], [1e-200, 1e-200], [5e-324, 0.5]]),
                 "steps": [{"op": "enumerate", "only": None, "cuts": cuts}]}
 
     def run(self, case, w, R):
@@ -100,7 +106,12 @@ class C15(Scenario):
             raise self.violation(exc_site(o.exc)[0], "fromJson", "rejected-control:%s" % type(o.exc).__name__,
                                  "a document produced by toJson was rejected: %s" % o.describe(), 0, {"doc": doc})
         again = observe.normalise(o.value.toJson())
-        if again != observe.normalise(doc):
+        underflow = any(abs(float(f_)) < 1e-100 for f_ in (case.get("scales") or []))
+        if underflow:
+            # weights scaled below the smallest double: entries 0.0 beside means / extrema / keys that stay. The document
+            # must still be accepted (this property); what a reload makes of such a state is not demanded here
+            w.bump("probe_underflow_state_accepted")
+        elif again != observe.normalise(doc):
             d = observe.doc_diff(observe.normalise(doc), again) or ([], sp["p"], "?")
             raise self.violation(d[1], "fromJson", "fixpoint:%s" % d[2], "reload of the unmutated document re-serialises differently", 0)
         st = case["steps"][0] if case["steps"] else {"only": None, "cuts": []}
